@@ -154,12 +154,19 @@ def _alarm(*_):
 STAN_KEYS = ["warmup", "post", "init", "term", "base", "thinPost", "thinWarm"]
 
 
-def call_stan(a):
-    """Returns (raised, out) or raises _Hang."""
+def call_stan(a, via_builder=False):
+    """Returns (raised, out) or raises _Hang.  via_builder: through EngineBuilder.set_duration (which fixes
+    init_duration = 75 and base_duration = 25, the defaults of stan_epochs)."""
     old = signal.signal(signal.SIGALRM, _alarm)
     signal.setitimer(signal.ITIMER_REAL, 5.0)
     try:
         try:
+            if via_builder:
+                import liesel.goose as gs
+                b = gs.EngineBuilder(seed=1, num_chains=1)
+                b.set_duration(a["warmup"], a["post"], term_duration=a["term"], thinning_posterior=a["thinPost"],
+                               thinning_warmup=a["thinWarm"])
+                return False, list(b.epochs)      # a RuntimeError of the EpochManager is caught below
             out = stan_epochs(
                 warmup_duration=a["warmup"],
                 posterior_duration=a["post"],
@@ -171,6 +178,10 @@ def call_stan(a):
             )
             return False, out
         except ValueError:
+            return True, None
+        except RuntimeError:
+            if not via_builder:
+                raise
             return True, None
     finally:
         signal.setitimer(signal.ITIMER_REAL, 0)
@@ -192,12 +203,12 @@ def py_admissible(a, out):
     )
 
 
-def stan_trace(a, with_chunk=False):
+def stan_trace(a, with_chunk=False, via_builder=False):
     """stan_epochs call, then the produced configs go through a real manager, all
     epochs are handed out, and (optionally) the EngineBuilder's chunk is read."""
-    raised, out = call_stan(a)
+    raised, out = call_stan(a, via_builder)
     r = Recorder()
-    ev = {"ev": "stan", "args": a, "raised": raised}
+    ev = {"ev": "stan", "args": a, "raised": raised, "via_builder": via_builder}
     if not raised:
         ev["out"] = [cfg_rec(c.type, c.duration, c.thinning) for c in out]
         ev["admissible"] = py_admissible(a, out)
